@@ -71,9 +71,36 @@ class _ShortRaw(__import__("io").RawIOBase):
         return n
 
 
+class _DeviceRaw(__import__("io").RawIOBase):
+    """A character-device-like raw stream: it says it is seekable, every seek() answers 0 and moves nothing (so the size measured by
+    seek(0, SEEK_END) is 0), and reads deliver the data in order."""
+    def __init__(self, data):
+        self._d, self._o = data, 0
+
+    def readable(self):
+        return True
+
+    def seekable(self):
+        return True
+
+    def seek(self, off, whence=0):
+        return 0
+
+    def tell(self):
+        return 0
+
+    def readinto(self, b):
+        n = min(len(b), len(self._d) - self._o)
+        b[:n] = self._d[self._o:self._o + n]
+        self._o += n
+        return n
+
+
 def _file_family(kind, stream):
     import gzip
     import io
+    if kind == "device-reporting-length-0":
+        return io.BufferedReader(_DeviceRaw(stream), buffer_size=16)
     if kind == "gzip":
         buf = io.BytesIO()
         with gzip.GzipFile(fileobj=buf, mode="wb", mtime=0) as g:
@@ -305,7 +332,7 @@ def _task(task):
                 # (b') other members of the file family: a gzip file object and a BufferedReader over a raw stream that answers every raw
                 # read with at most 3 bytes (both are io.BufferedIOBase, which is what the framer asks for)
                 if thr is None:
-                    for kind in ("gzip", "buffered-over-short-raw"):
+                    for kind in ("gzip", "buffered-over-short-raw", "device-reporting-length-0"):
                         for r in (None, 1, 7, L + 1):
                             try:
                                 with case_alarm(20):
@@ -582,8 +609,8 @@ def run(ctx):
         "programs": tally.programs,
         "exhaustive": True,
         "bound": (f"all sequences of <= {max_len} packets over a 3-packet palette (data lengths 1, 2, 5), prefix lengths "
-                  f"{'0,1,4' if ctx.quick else '0..7'}; bytes; BytesIO and real file with every read size None,1..L+1; a gzip file object and a BufferedReader over a raw stream "
-                  "delivering <= 3 bytes per raw read, read sizes None,1,7,L+1; BytesIO and real file that the caller closes / rewinds after taking exactly the packets they hold, then one more request (read sizes None,1,7,L+1, every trim literal); one BytesIO framed, then appended to / emptied and refilled with a longer stream, then framed again (every split of the sequence); "
+                  f"{'0,1,4' if ctx.quick else '0..7'}; bytes; BytesIO and real file with every read size None,1..L+1; a gzip file object, a BufferedReader over a raw stream "
+                  "delivering <= 3 bytes per raw read and one over a device-like raw stream whose seek() always answers 0, read sizes None,1,7,L+1; BytesIO and real file that the caller closes / rewinds after taking exactly the packets they hold, then one more request (read sizes None,1,7,L+1, every trim literal); one BytesIO framed, then appended to / emptied and refilled with a longer stream, then framed again (every split of the sequence); "
                   "scripted socket with read sizes {None,1,2,3,5,6,7,8,L} x EVERY fragmentation (state-hashed DFS; also: no recv() while a complete record is delivered and unyielded); "
                   "both entry points; trim literal rewritten to {0,5,17} and reached for real with a 21 MB stream; "
                   "max-size packet; stateless cross-check of the state merging on short streams; sized sources (bytes, BytesIO with 5 read sizes) additionally on "
@@ -649,8 +676,8 @@ def replay(case):
             if bad:
                 return {"sig": {"kind": "touches-source-after-last-packet", "source": src_kind, "touch": case["touch"]}, "case": case, "observed": bad}
             return None
-        if src_kind in ("bytes", "bytesio", "file", "gzip", "buffered-over-short-raw"):
-            src = stream if src_kind == "bytes" else _file_family(src_kind, stream) if src_kind in ("gzip", "buffered-over-short-raw") else CountingBytesIO(stream)
+        if src_kind in ("bytes", "bytesio", "file", "gzip", "buffered-over-short-raw", "device-reporting-length-0"):
+            src = stream if src_kind == "bytes" else _file_family(src_kind, stream) if src_kind in ("gzip", "buffered-over-short-raw", "device-reporting-length-0") else CountingBytesIO(stream)
             bad = _sized_run(entry, pkmod, src, case.get("r"), k, expected)
             if bad:
                 return {"sig": {"kind": "framing-mismatch", "source": src_kind}, "case": case, "observed": bad}
